@@ -5,7 +5,11 @@ For each seeded change: verify /repo is clean, `git -C /repo apply patch.diff`, 
 (plus any `also_check` properties in meta.json), record exit code and the VIOLATION line, then `git -C /repo checkout -- .`.
 Writes seeded/RESULTS.json and prints a table.  Never leaves /repo modified.
 
-usage: harness/seeded_run.py [id-prefix …] [--tier quick|thorough]
+With `--scratch [-j N]` the change is applied to a scratch worktree of /repo's HEAD under /tmp instead (removed afterwards), the
+checks run with VERIF_REPO pointing at it and write their evidence/replays under /tmp too (the replay's content is copied into
+RESULTS.json), N changes in parallel; /repo itself is then never touched, so this mode can run while other work reads /repo.
+
+usage: harness/seeded_run.py [id-prefix …] [--tier quick|thorough] [--scratch] [-j N]
 """
 import json
 import os
@@ -20,13 +24,74 @@ def sh(cmd, **kw):
     return subprocess.run(cmd, shell=True, stdout=subprocess.PIPE, stderr=subprocess.STDOUT, text=True, **kw)
 
 
+def run_scratch(name, slot, tier):
+    d = os.path.join(VERIF, 'seeded', name)
+    meta = json.load(open(os.path.join(d, 'meta.json')))
+    props = [meta['property']] + meta.get('also_check', [])
+    wt, ev = '/tmp/pv-seed-%d' % slot, '/tmp/pv-seed-ev-%d' % slot
+    sh('git -C %s worktree remove --force %s' % (REPO, wt))
+    sh('rm -rf %s %s' % (wt, ev))
+    if sh('git -C %s worktree add -q --detach %s HEAD' % (REPO, wt)).returncode:
+        return name, {'error': 'worktree'}
+    try:
+        r = sh('git -C %s apply %s' % (wt, os.path.join(d, 'patch.diff')))
+        if r.returncode != 0:
+            return name, {'error': 'patch does not apply: ' + r.stdout[-300:]}
+        res = {}
+        for p in props:
+            c = sh('cd %s && VERIF_REPO=%s VERIF_EVIDENCE_DIR=%s harness/check.py %s --tier %s' % (VERIF, wt, ev, p, tier), timeout=3600)
+            vio = [l for l in c.stdout.split('\n') if l.startswith('VIOLATION')]
+            res[p] = {'exit': c.returncode, 'violation': vio[0].replace(ev, 'evidence') if vio else None,
+                      'no_failing_input': bool(vio and vio[0].rstrip().endswith('no-failing-input-found'))}
+            what = ''
+            if vio:
+                rp = vio[0].split('replay=')[1].split()[0]
+                try:
+                    what = json.load(open(rp)).get('what') or str(json.load(open(rp)).get('no_longer_checks'))[:200]
+                except Exception:
+                    pass
+            res[p]['what'] = what
+            print('%-12s %s exit=%d %s %s' % (name, p, c.returncode, 'CAUGHT' if c.returncode == 1 else 'MISSED' if c.returncode == 0 else 'INFRA',
+                                              (what or '')[:110]), flush=True)
+        return name, {'tier': tier, 'checks': res, 'title': meta.get('title'), 'mode': 'scratch-worktree'}
+    finally:
+        sh('git -C %s worktree remove --force %s' % (REPO, wt))
+        sh('rm -rf %s %s' % (wt, ev))
+
+
 def main(argv):
     tier = 'quick'
     want = []
+    scratch, jobs = False, 1
     i = 1
     while i < len(argv):
         if argv[i] == '--tier': tier = argv[i + 1]; i += 2
+        elif argv[i] == '--scratch': scratch = True; i += 1
+        elif argv[i] == '-j': jobs = int(argv[i + 1]); i += 2
         else: want.append(argv[i]); i += 1
+    if scratch:
+        from concurrent.futures import ThreadPoolExecutor
+        import queue
+        sd = os.path.join(VERIF, 'seeded')
+        results_path = os.path.join(sd, 'RESULTS.json')
+        names = [n for n in sorted(os.listdir(sd)) if os.path.isdir(os.path.join(sd, n)) and (not want or any(n == w or n.startswith(w) for w in want))]
+        slots = queue.Queue()
+        for k in range(jobs):
+            slots.put(k)
+
+        def job(n):
+            k = slots.get()
+            try:
+                return run_scratch(n, k, tier)
+            finally:
+                slots.put(k)
+        with ThreadPoolExecutor(jobs) as ex:
+            out = list(ex.map(job, names))
+        results = json.load(open(results_path)) if os.path.exists(results_path) else {}
+        results.update(dict(out))
+        with open(results_path, 'w') as f:
+            json.dump(results, f, indent=1, sort_keys=True)
+        return 0
     if sh('git -C %s status --porcelain --untracked-files=no' % REPO).stdout.strip():
         print('refusing: /repo has local modifications'); return 2
     sd = os.path.join(VERIF, 'seeded')
